@@ -178,6 +178,9 @@ struct Flight {
 }
 
 pub struct Engine {
+    /// (flow info, scope id) the operating system reports with IPv6 source addresses (link-local
+    /// peers): attached to every IPv6 source at the moment of injection, nowhere else
+    pub inject_scope: Option<(u32, u32)>,
     pub rig: WireRig,
     pub peers: Vec<Peer>,
     pub trace: Vec<TraceEv>,
@@ -224,6 +227,7 @@ impl Engine {
         let victim_pub = rig.victim.public();
         let victim_id = rig.victim.id;
         Engine {
+            inject_scope: None,
             rig,
             peers,
             trace: Vec::new(),
@@ -238,6 +242,13 @@ impl Engine {
             victim_id,
             next_req: 1,
             activity: 0,
+        }
+    }
+
+    fn scoped(&self, a: SocketAddr) -> SocketAddr {
+        match (a, self.inject_scope) {
+            (SocketAddr::V6(v6), Some((flow, scope))) => SocketAddr::V6(std::net::SocketAddrV6::new(*v6.ip(), v6.port(), flow, scope)),
+            _ => a,
         }
     }
 
@@ -331,7 +342,7 @@ impl Engine {
 
     /// Inject right now, bypassing the fault injector (attack scripts).
     pub fn inject_now(&mut self, peer: Option<usize>, from: SocketAddr, bytes: Vec<u8>, class: InClass) {
-        self.rig.inject(from, bytes.clone());
+        self.rig.inject(self.scoped(from), bytes.clone());
         self.log(Ev::Injected { from, peer, class, bytes });
     }
 
@@ -573,7 +584,7 @@ impl Engine {
                 happened += 1;
                 if f.to_victim {
                     fed = true;
-                    self.rig.inject(f.addr, f.bytes.clone());
+                    self.rig.inject(self.scoped(f.addr), f.bytes.clone());
                     self.log(Ev::Injected { from: f.addr, peer: Some(f.peer), class: f.class.unwrap_or(InClass::Crafted("?".into())), bytes: f.bytes });
                 } else {
                     self.peer_react(f.peer, &f.bytes);
